@@ -1,6 +1,6 @@
 ENGINES = [
     {'name': 'X', 'path': 'lib/xworker.py', 'kind_free_text': 'CrossHair 0.0.110 symbolic execution of the real Python functions (z3 decides every branch), one OS process per condition, vacuity twin per condition, plain-CPython replay of every counterexample',
-     'serves_properties': ['C01', 'C02', 'C05', 'C06', 'C08', 'C09', 'C10', 'C11', 'C13', 'C14', 'C15', 'C16', 'C17', 'C18', 'C19', 'C20']},
+     'serves_properties': ['C01', 'C02', 'C04', 'C05', 'C06', 'C08', 'C09', 'C10', 'C11', 'C13', 'C14', 'C15', 'C16', 'C17', 'C18', 'C19', 'C20']},
     {'name': 'Z', 'path': 'lib/zworker.py', 'kind_free_text': 'z3 sequence-theory queries over SHA-1 pre-image terms recorded by executing the real digest code on symbolic strings (lib/zsym.py); sat models replayed on the real functions with the real hashlib',
      'serves_properties': ['C02', 'C03', 'C07']},
 ]
@@ -165,5 +165,16 @@ CLAIMS = {
         note='Trusted: specs/subst_ref.py (reference written from doc/manual/configuration.rst), CrossHair/z3 string theory '
              '(counterexamples are replayed in plain CPython). Outside: regex functions match/resubst/matchScm, strings longer than the bound, '
              'pyparsing text->AST step of IfExpression (skeletons are parsed by the real grammar but only enumerated).'),
+    'C04': dict(
+        engine='X',
+        technique='CrossHair+z3 enumeration of project shapes and invocation histories through the real RecipeSet.parse / generatePackages / Recipe.prepare memoisation, the real persisted pickle / sqlite caches and the real path query, '
+                  'compared with the same real code with memo lookup and by-id merging disabled in a fresh directory',
+        text='For a generated project of 11 recipes with 11 symbolic feature bits (which of leaf/mid/top consume a variable that two parents set differently, direct and transitive reachability, dependency order, '
+             'conditional dependency on the sandbox state, provided variables, earlier visits with the variable unset) and for histories of 2 (quick) / 3 (thorough) invocations in one project directory with symbolic '
+             'sandbox on/off, -D override and a recipe edit: the package graph (every path, package-step variant id, environment, digest script, tools, sandbox flag, direct and indirect dependency names) and the result of '
+             'the query //* are identical to those computed by the same code with PackageMatcher.matches forced to False, no merging by result id, and no on-disk caches.',
+        design_ref='DESIGN.md section 4, C04',
+        note='Trusted: the uncached reference is the same real code with the two reuse points disabled. Outside: class / include / default.yaml / layer edits, tool and plugin-state touches, projects beyond the generated family, '
+             'cache key collisions of the on-disk caches (sha1 / stat granularity).'),
 }
 NOT_APPLICABLE = {}
